@@ -180,10 +180,14 @@ impl Write for RecWriter {
 fn wkind_name(k: ErrorKind) -> String { WKINDS.iter().find(|x| x.1 == k).map(|x| x.0.to_string()).unwrap_or(format!("{:?}", k)) }
 fn show_wio(e: &serde_json::Error) -> String {
     if e.classify() == serde_json::error::Category::Io {
-        let k = e.io_error_kind().map(wkind_name).unwrap_or("?".into());
-        // `io::Error::from(err)` must give the writer's error back: same kind
-        format!("IO:{}", k)
-    } else { show_err(e) }
+        format!("IO:{}", e.io_error_kind().map(wkind_name).unwrap_or("?".into()))
+    } else {
+        // the serializer's own errors (as `class` in c03.rs)
+        let m = e.to_string();
+        if m.starts_with("key must be a string") { "ERR:KeyMustBeAString".into() }
+        else if m.starts_with("float key must be finite") { "ERR:FloatKeyMustBeFinite".into() }
+        else { format!("ERR:Other:{}", m.replace(' ', "_")) }
+    }
 }
 
 fn ser_into<W: Write>(w: &mut W, p: &Prog, pretty: bool) -> String {
@@ -191,13 +195,14 @@ fn ser_into<W: Write>(w: &mut W, p: &Prog, pretty: bool) -> String {
         let rr = if pretty { serde_json::to_writer_pretty(&mut *w, p) } else { serde_json::to_writer(&mut *w, p) };
         match rr {
             Ok(()) => "OK".to_string(),
+            // `io::Error::from(err)` must give the writer's error back (same kind), else the observation says so
             Err(e) => { let s = show_wio(&e); let back: io::Error = e.into(); if s.starts_with("IO:") && s != format!("IO:{}", wkind_name(back.kind())) { format!("{}/into:{}", s, wkind_name(back.kind())) } else { s } }
         }
     })).unwrap_or("PANIC".into())
 }
 
 /// one case: the program through both writers under the script
-fn wfault_case(sink: &mut Sink, cfg: &str, p: &Prog, e: &str, pretty: bool, full: &[u8], script: &[Resp], tail: Resp, fam: &str) {
+fn wfault_case(sink: &mut Sink, cfg: &str, p: &Prog, e: &str, pretty: bool, full: &[u8], clean: &str, script: &[Resp], tail: Resp, fam: &str) {
     let mut w = RecWriter { core: ScriptCore::new(script, tail), bufs: vec![] };
     let res = ser_into(&mut w, p, pretty);
     let mut w2 = PlainWriter(ScriptCore::new(script, tail));
@@ -205,11 +210,11 @@ fn wfault_case(sink: &mut Sink, cfg: &str, p: &Prog, e: &str, pretty: bool, full
     let same = res2 == res && w2.0.acc == w.core.acc && w2.0.calls == w.core.calls;
     let std = if same { "=".to_string() } else { format!("{}/{}/{}", res2, hexf(&w2.0.acc), w2.0.calls) };
     let bufs: Vec<String> = w.bufs.iter().map(|b| hexf(b)).collect();
-    let class = if res == "OK" { "ok" } else if res == "IO:WriteZero" { "writezero" } else if res.starts_with("IO:") { "io" } else { "other" };
+    let class = if res == "OK" { "ok" } else if res == "IO:WriteZero" { "writezero" } else if res.starts_with("IO:") { "io" } else if res.starts_with("ERR:") { "sererr" } else { "other" };
     let shape = if script.contains(&Resp::Intr) { "intr" } else { "nointr" };
-    sink.case("wfault", &[cfg, if pretty { "p" } else { "c" }, &script_str(script), &resp_str(&tail), e, &hexf(full)],
+    sink.case("wfault", &[cfg, if pretty { "p" } else { "c" }, &script_str(script), &resp_str(&tail), e, &hexf(full), clean],
               &format!("{}|{}|{}|{}|{}", res, hexf(&w.core.acc), w.core.calls, if bufs.is_empty() { "-".to_string() } else { bufs.join(".") }, std),
-              &format!("write:{}:{}:{}:{}", if pretty { "pretty" } else { "compact" }, fam, class, shape), !script.is_empty());
+              &format!("write:{}:{}{}:{}:{}", if pretty { "pretty" } else { "compact" }, fam, if clean == "OK" { "" } else { "-failing-prog" }, class, shape), !script.is_empty());
 }
 
 /// a script under which the writer accepts exactly `m` bytes of the buffers `bufs0` (the fault-free run) — in short
@@ -235,19 +240,21 @@ fn budget_script(bufs0: &[Vec<u8>], m: usize, term: Resp, transient: bool, r: &m
 }
 
 pub fn emit_write(sink: &mut Sink, cfg: &str, p: &Prog, pretty: bool, r: &mut Rng) {
-    let full = if pretty { serde_json::to_vec_pretty(p) } else { serde_json::to_vec(p) };
-    let full = match full { Ok(f) => f, Err(_) => return };
     let e = enc_prog(p);
-    // the fault-free run: the buffers as handed to write_all
+    // the fault-free run: the buffers as handed to write_all, the bytes a writer that takes everything ends up with
+    // (for a program whose serialisation fails by itself: what was written before that error) and the result
     let mut w0 = RecWriter { core: ScriptCore::new(&[], Resp::Short(usize::MAX)), bufs: vec![] };
-    let _ = ser_into(&mut w0, p, pretty);
-    let bufs0 = w0.bufs;
+    let clean = ser_into(&mut w0, p, pretty);
+    if clean != "OK" && !clean.starts_with("ERR:") { return; }
+    let (bufs0, full) = (w0.bufs, w0.core.acc);
+    if clean == "OK" { assert_eq!(Some(&full), (if pretty { serde_json::to_vec_pretty(p) } else { serde_json::to_vec(p) }).ok().as_ref()); }
+    let clean = clean.as_str();
     for m in 0..=full.len() + 1 {
         if full.len() > 40 && !r.chance(1, 4) && m != full.len() { continue; }
         let term = if r.chance(1, 5) { Resp::Zero } else { Resp::Fail(r.pick(WKINDS).1) };
         let transient = r.chance(1, 3);
         let (script, tail) = budget_script(&bufs0, m, term, transient, r);
-        wfault_case(sink, cfg, p, &e, pretty, &full, &script, tail, if transient { "budget-transient" } else { "budget" });
+        wfault_case(sink, cfg, p, &e, pretty, &full, clean, &script, tail, if transient { "budget-transient" } else { "budget" });
     }
     // scripts that know nothing about the output
     for _ in 0..3 {
@@ -256,17 +263,17 @@ pub fn emit_write(sink: &mut Sink, cfg: &str, p: &Prog, pretty: bool, r: &mut Rn
             0..=5 => Resp::Short(1 + r.below(9)), 6 | 7 => Resp::Short(4096), 8 | 9 => Resp::Intr,
             10 => Resp::Zero, _ => Resp::Fail(r.pick(WKINDS).1) }).collect();
         let tail = match r.below(5) { 0 => Resp::Short(1), 1 | 2 => Resp::Short(4096), 3 => Resp::Zero, _ => Resp::Fail(r.pick(WKINDS).1) };
-        wfault_case(sink, cfg, p, &e, pretty, &full, &script, tail, "random");
+        wfault_case(sink, cfg, p, &e, pretty, &full, clean, &script, tail, "random");
     }
 }
 
 pub fn replay(sink: &mut Sink, toks: &[&str]) {
-    if toks[0] == "wfault" && toks.len() == 7 {
-        // wfault <cfg> <c|p> <script> <tail> <prog> <hex full>
+    if toks[0] == "wfault" && toks.len() == 8 {
+        // wfault <cfg> <c|p> <script> <tail> <prog> <hex full> <clean result>
         let p = dec_prog(toks[5]);
         let pretty = toks[2] == "p";
         let full = unhex(toks[6]);
-        wfault_case(sink, toks[1], &p, toks[5], pretty, &full, &parse_script(toks[3]), parse_resp(toks[4]), "replay");
+        wfault_case(sink, toks[1], &p, toks[5], pretty, &full, toks[7], &parse_script(toks[3]), parse_resp(toks[4]), "replay");
         return;
     }
     eprintln!("C13 reader cases depend on the PRNG-chosen chunking; replay by re-running ./check C13 with the same VERIF_SEED ({})", toks[0]);
